@@ -53,6 +53,31 @@ def run(chk: common.Check, tier: str):
             chk.violation(f"a parser generated a second time from the same grammar object differs: keyword tables "
                           f"{k1[0]}/{k1[1]} -> {k2[0]}/{k2[1]}, outcomes {k1[2]} -> {k2[2]}",
                           {"grammar": t, "inputs": INPUTS, "how": "PythonParserGenerator(g, out).generate() twice on one Grammar object"}, True)
+    # keywords with letters outside ASCII (the classification regex uses \\w), and keywords spelled like names of the
+    # token module that are not token kinds the tokenizer emits
+    probes = [("start: NAME NEWLINE | SOFT_KEYWORD NUMBER NEWLINE | NUMBER hard soft NEWLINE\nhard: 'caf\u00e9' | NUMBER\n"
+               "soft: \"na\u00efve\" | NUMBER\n", ["caf\u00e9"], ["na\u00efve"],
+               {"caf\u00e9\n": False, "na\u00efve\n": True, "x\n": True, "na\u00efve 1\n": True, "caf\u00e9 1\n": False, "x 1\n": False}),
+              ("start: NAME NEWLINE | SOFT_KEYWORD NUMBER NEWLINE | NUMBER hard soft NEWLINE\nhard: 'AT' | NUMBER\n"
+               "soft: \"COMMENT\" | NUMBER\n", ["AT"], ["COMMENT"],
+               {"AT\n": False, "COMMENT\n": True, "COMMENT 1\n": True, "AT 1\n": False, "1 AT COMMENT\n": True, "1 AT 2\n": True,
+                "1 x COMMENT\n": False})]
+    pres = rm.run_traced([{"grammar": g, "inputs": list(exp), "configs": ["q1"]} for g, _, _, exp in probes])
+    for (g, kws, softs, exp), rj in zip(probes, pres):
+        chk.count()
+        if "results" not in rj:
+            chk.violation("a grammar with unusual keywords cannot be turned into a parser: " + str(rj.get("build_error"))[:200],
+                          {"grammar": g}, True)
+            continue
+        if rj["keywords"] != kws or rj["soft_keywords"] != softs:
+            chk.violation(f"keyword tables {rj['keywords']} / {rj['soft_keywords']}, expected {kws} / {softs}",
+                          {"grammar": g, "KEYWORDS": rj["keywords"], "SOFT_KEYWORDS": rj["soft_keywords"]}, True)
+        for (src, should), one in zip(exp.items(), rj["results"]):
+            x = one["runs"]["q1"]
+            accepted = x["kind"] == "ok" and x.get("value") is not None
+            if x["kind"] in ("ok", "SyntaxError") and accepted != should:
+                chk.violation(f"input {src!r} is {'accepted' if accepted else 'rejected'}; hard keywords {kws}, soft keywords {softs}",
+                              {"grammar": g, "input": src, "accepted": accepted}, True)
     kfs = common.known_findings("C11")
     known_hit = set()
     for t, rj in pairs:
